@@ -66,6 +66,11 @@ func ModStmts() []Stmt {
 	add("replace", "replace a.com/x => \"./tab\\there\"\n")
 	add("replace", "replace (\n\ta.com/x => ./x\n\t// b\n\tb.com/y v1.0.0 => c.com/z v1.2.0 // s\n)\n")
 	addFix("replace", "replace a.com/x v1 => b.com/y v1.1\n")
+	addFix("replace", "replace a.com/x => b.com/y v1\n")
+	addFix("replace", "replace (\n\ta.com/x v1 => ../x\n\tb.com/y => c.com/z v1.2 // s\n)\n")
+	addFix("exclude", "exclude a.com/x v1.0\n")
+	addFix("exclude", "exclude (\n\ta.com/x v1\n\tb.com/y v1.2.0\n)\n")
+	addFix("require", "require a.com/x v1 // indirect\n")
 	// retract
 	add("retract", "retract v1.0.0\n")
 	add("retract", "// bad\nretract v1.0.0 // really\n")
@@ -73,6 +78,10 @@ func ModStmts() []Stmt {
 	add("retract", "retract (\n\tv1.0.0 // one\n\t// two\n\t[v1.1.0, v1.2.0]\n)\n")
 	add("retract", "// all bad\nretract (\n\tv1.0.0\n\tv1.1.0\n)\n")
 	addFix("retract", "retract [v1, v1.1]\n")
+	add("retract", "retract [v1.2.0, v1.2.0]\n")
+	add("retract", "retract (\n\t[v1.0.0, v1.0.0] // same\n\tv1.3.0\n)\n")
+	addFix("retract", "retract [v1.2, v1.2]\n")
+	addFix("retract", "retract v1 // short\n")
 	// tool
 	add("tool", "tool a.com/x/cmd\n")
 	add("tool", "tool (\n\ta.com/x/cmd // s\n\tb.com/y/cmd\n)\n")
